@@ -372,10 +372,12 @@ let obs_fen (s : sess) =
   match toks line with
   | [ "F"; f0; f1 ] ->
     let f0 = unhexstr f0 and f1 = unhexstr f1 in
-    let w0 = string_of_str (fen_of false n.sg.g_cur) and w1 = string_of_str (fen_of true n.sg.g_cur) in
+    (* the printed full-move number is the size_t counter: the rules' / the model's number modulo 2^64 (CounterWrap.v) *)
+    let g = { n.sg.g_cur with s_full = wrap64 n.sg.g_cur.s_full } and mp = { n.mp with fullmove = wrap64 n.mp.fullmove } in
+    let w0 = string_of_str (fen_of false g) and w1 = string_of_str (fen_of true g) in
     if f1 <> w1 then fail_spec "get_fen(true) = %S, canonical FEN is %S" f1 w1;
     if f0 <> w0 then fail_spec "get_fen(false) = %S, canonical FEN is %S" f0 w0;
-    if str_of_string f0 <> get_fen n.mp false || str_of_string f1 <> get_fen n.mp true then fail_model "get_fen differs from the model's";
+    if str_of_string f0 <> get_fen mp false || str_of_string f1 <> get_fen mp true then fail_model "get_fen differs from the model's";
     bump "obs_fen";
     (f0, f1)
   | _ -> raise (Mismatch ("crash", "unparsable fen line"))
